@@ -273,7 +273,8 @@ func flowEngine(args []string) error {
 		// the defaults added by readHostsFile
 		ipmap = append(ipmap, sx("127.0.0.1")+":"+sx("127.0.0.1")+":7f000001", sx("::1")+":"+sx("::1")+":"+hx(net.ParseIP("::1")))
 		hosts := &discovery.Hosts{}
-		for k := 0; k < 8; k++ {
+		again := hostNames[r.intn(len(hostNames))] // asked repeatedly, both families: the table must not change by being read
+		for k := 0; k < 12; k++ {
 			bogus := r.coin(50)
 			useLocal := !r.coin(15)
 			useDisc := r.coin(40)
@@ -281,6 +282,10 @@ func flowEngine(args []string) error {
 			var name string
 			typ := []int{1, 28, 12, 16, 15, 255}[r.intn(6)]
 			switch x := r.intn(10); {
+			case k >= 8:
+				name = randCase(r, again)
+				typ = []int{28, 1, 28, 1}[k-8]
+				useLocal, useDisc = true, false
 			case x < 4:
 				name = randCase(r, hostNames[r.intn(len(hostNames))])
 			case x < 8:
